@@ -17,6 +17,29 @@ type genCtx struct {
 	prop string
 	tier string
 	bins *genBinaries
+	kfs  []KnownFinding
+}
+
+// known returns the listed (not fixed) finding that v is an instance of.
+func (c *genCtx) known(v *genViolation) *KnownFinding {
+	if v == nil {
+		return nil
+	}
+	f := map[string]string{"clause": v.Clause, "detail": v.Detail}
+	for _, k := range sortedKeysStr(v.Facts) {
+		f[k] = v.Facts[k]
+	}
+	return matchKnown(c.kfs, c.prop, f)
+}
+
+// knownHit records that a case met a listed finding and went on.
+func (r *genResult) knownHit(k *KnownFinding) {
+	for _, id := range r.KnownHits {
+		if id == k.ID {
+			return
+		}
+	}
+	r.KnownHits = append(r.KnownHits, k.ID)
 }
 
 // genViolation is a failed oracle clause.
@@ -38,6 +61,7 @@ type genResult struct {
 	Probes     map[string]int
 	Faults     map[string]int
 	SawPanic   bool
+	KnownHits  []string // ids of listed findings this case ran into (and continued past)
 }
 
 type genCaseFn func(ctx *genCtx, ts *tape.Set, dir string) *genResult
@@ -74,7 +98,7 @@ type genBudget struct {
 func runGenCheck(o checkOpts, level string, quick, thorough genBudget, rule string, assumptions []string) int {
 	ev := newEvidence(o.id, o.tier, o.seed, level)
 	fn := genCases[o.id]
-	ctx := &genCtx{prop: o.id, tier: o.tier, bins: buildGenBinaries()}
+	ctx := &genCtx{prop: o.id, tier: o.tier, bins: buildGenBinaries(), kfs: loadKnownFindings()}
 	defer cleanup()
 	b := quick
 	if o.tier == "thorough" {
@@ -93,6 +117,12 @@ func runGenCheck(o checkOpts, level string, quick, thorough genBudget, rule stri
 	results := make([]*genResult, b.cases)
 	var mu sync.Mutex
 	next := 0
+	if v := os.Getenv("VERIF_CASE"); v != "" {
+		// development aid: run a single case index
+		fmt.Sscan(v, &next)
+		b.cases = next + 1
+		results = make([]*genResult, b.cases)
+	}
 	firstFail := -1
 	t0 := time.Now()
 	var wg sync.WaitGroup
@@ -138,6 +168,7 @@ func runGenCheck(o checkOpts, level string, quick, thorough genBudget, rule stri
 	execs, steps, done, nontrivial, sawPanic := 0, 0, 0, 0, 0
 	var samples []any
 	var failing []*genResult
+	knownHits := map[string]int{}
 	for _, r := range results {
 		if r == nil {
 			continue
@@ -160,6 +191,9 @@ func runGenCheck(o checkOpts, level string, quick, thorough genBudget, rule stri
 		}
 		if len(samples) < 3 && r.Nontrivial && r.V == nil {
 			samples = append(samples, r.Sample)
+		}
+		for _, id := range r.KnownHits {
+			knownHits[id]++
 		}
 		if r.V != nil {
 			failing = append(failing, r)
@@ -200,7 +234,16 @@ func runGenCheck(o checkOpts, level string, quick, thorough genBudget, rule stri
 		"sampling, not enumeration, of the program dimension: a clean batch is evidence, not proof",
 	}, assumptions...)
 
+	printKnown := func(extra map[string]int) {
+		for _, k := range ctx.kfs {
+			if k.Property == o.id && k.Status == "known" && (knownHits[k.ID] > 0 || extra[k.ID] > 0) {
+				fmt.Printf("KNOWN-FINDING: property=%s %s\n", o.id, k.Text)
+			}
+		}
+	}
+	cov["known_findings_matched"] = knownHits
 	if len(failing) == 0 {
+		printKnown(nil)
 		ev.write()
 		fmt.Printf("%s: held on %d cases (%d goderive executions, %d distinct non-trivial) in %.1fs (+%.1fs build)\n", o.id, done, execs, len(distinct), simWall, ctx.bins.buildS)
 		return 0
@@ -222,17 +265,12 @@ func runGenCheck(o checkOpts, level string, quick, thorough genBudget, rule stri
 		fmt.Printf("SURVEY: %d of %d cases failed\n", len(failing), done)
 		return 2
 	}
-	kfs := loadKnownFindings()
 	exit := 0
-	reported := map[string]bool{}
 	matched := map[string]int{}
 	for _, f := range failing {
-		if k := matchKnown(kfs, o.id, f.V.Facts); k != nil {
+		if k := ctx.known(f.V); k != nil {
 			matched[k.ID]++
-			if !reported[k.ID] {
-				fmt.Printf("KNOWN-FINDING: property=%s %s\n", o.id, k.Text)
-				reported[k.ID] = true
-			}
+			knownHits[k.ID]++
 			continue
 		}
 		if exit != 0 {
@@ -244,7 +282,8 @@ func runGenCheck(o checkOpts, level string, quick, thorough genBudget, rule stri
 		fmt.Printf("VIOLATION property=%s replay=%s\n", o.id, path)
 		exit = 1
 	}
-	cov["known_findings_matched"] = matched
+	printKnown(nil)
+	cov["known_findings_matched"] = knownHits
 	ev.write()
 	if exit == 0 {
 		fmt.Printf("%s: held on %d cases apart from known findings (%d goderive executions) in %.1fs\n", o.id, done, execs, simWall)
@@ -277,14 +316,13 @@ func genReport(ctx *genCtx, o checkOpts, f *genResult, b genBudget) string {
 		os.MkdirAll(dir, 0o755)
 		return fn(ctx, tape.ReplaySet(0, r), dir)
 	}
-	kfs := loadKnownFindings()
 	fails := func(r tape.Rec) bool {
 		res := runRec(r)
 		if res.V == nil || res.V.Clause != f.V.Clause {
 			return false
 		}
 		// never shrink an unknown violation into a known finding
-		return matchKnown(kfs, o.id, res.V.Facts) == nil
+		return ctx.known(res.V) == nil
 	}
 	min, evals := orig, 0
 	if fails(orig) {
@@ -326,7 +364,7 @@ func genReplay(prop, path string) int {
 		fmt.Fprintln(os.Stderr, "no gensim case for", prop)
 		return 2
 	}
-	ctx := &genCtx{prop: prop, tier: "quick", bins: buildGenBinaries()}
+	ctx := &genCtx{prop: prop, tier: "quick", bins: buildGenBinaries(), kfs: loadKnownFindings()}
 	defer cleanup()
 	dir := filepath.Join(ctx.bins.scratch, "replay")
 	os.MkdirAll(dir, 0o755)
